@@ -4,7 +4,8 @@ import json, os, shutil, subprocess, sys
 src, sid = sys.argv[1], sys.argv[2]
 props = sys.argv[3:] or None
 dst = "/verif/seeded/" + sid
-shutil.copytree(src, dst, dirs_exist_ok=True)
+if os.path.realpath(src) != os.path.realpath(dst):
+    shutil.copytree(src, dst, dirs_exist_ok=True)
 for junk in ("demo/cff", "demo/go.sum"):
     pass
 args = ["python3", "/verif/tools/try_seed.py", os.path.join(src, "patch.diff")] + (props or [])
